@@ -112,6 +112,15 @@ inline bool flush_F(Rng& r, uint64_t idx)
   {
     quill::FileSinkConfig fc;
     fc.set_open_mode('w');
+    // every file sink configuration flushes its stdio buffer when the sink is flushed: also with fsync enabled and
+    // throttled by a minimum interval (only the fsync may be skipped, the data must still be readable), and with a
+    // small or a large write buffer
+    if (r.chance(1, 3))
+    {
+      fc.set_fsync_enabled(true);
+      fc.set_minimum_fsync_interval(std::chrono::milliseconds{r.pick({0, 1, 5000})});
+    }
+    if (r.chance(1, 3)) fc.set_write_buffer_size(r.pick<uint64_t>({4096, 1u << 20}));
     auto fs_sink = Fe::create_or_get_sink<quill::FileSink>(file_path, fc);
     LoggerDef d;
     d.name = w.tag + "_zfile"; // sorts after the other loggers: its sink is flushed after theirs
@@ -334,8 +343,19 @@ inline bool check_order(World const& w, std::vector<Issue> const& issues, std::v
     auto it = by_id.find({p.tid, p.seq});
     if (it == by_id.end()) continue;
     Issue const& b = *it->second;
+    // a Tsc logger's timestamp is an rdtsc value converted by the backend: it approximates the system clock; a quarter
+    // of the grace period is granted as conversion error (the premise "enqueued within the grace period" is then judged
+    // with that much less slack)
+    uint64_t const tol = (b.logger < w.loggers.size() && w.loggers[b.logger].tsc) ? grace_ns / 4 : 0;
     // the statement's timestamp must be the clock value read on the calling thread at the start of the call
-    if (e.ts < b.ts_lo || e.ts > b.clk_ret)
+    if (tol && (e.ts + 100000000ull < b.ts_lo || e.ts > b.clk_ret + 100000000ull))
+    {
+      // off by more than 100 ms: the backend's RdtscClock failed to synchronise (it says so on stderr; possible on a
+      // heavily loaded VM). Nothing about ordering can be concluded from such timestamps: scenario not judged.
+      stat_add("order_scenarios_not_judged_rdtsc_clock_unsynchronised");
+      return true;
+    }
+    if (e.ts + tol < b.ts_lo || e.ts > b.clk_ret + tol)
     {
       violation("C05", "timestamp-not-read-during-the-call", J{}.unum("tid", p.tid).unum("seq", p.seq).unum("ts", e.ts).unum("clock_before_call", b.ts_lo).unum("clock_after_call", b.clk_ret).str("scenario", scen).raw("cfg", w.describe()));
       return false;
@@ -344,7 +364,7 @@ inline bool check_order(World const& w, std::vector<Issue> const& issues, std::v
     if (e.ts < m.first)
     {
       // inversion: legitimate only if b was enqueued later than the grace period after its timestamp
-      uint64_t const lateness_upper = b.clk_ret - e.ts; // upper bound of (enqueue instant - timestamp)
+      uint64_t const lateness_upper = b.clk_ret + tol - e.ts; // upper bound of (enqueue instant - timestamp)
       if (lateness_upper <= grace_ns)
       {
         violation("C05", "timestamp-order-violated",
@@ -473,7 +493,17 @@ inline bool order_F(Rng& r, uint64_t idx)
   World w;
   w.tag = "oF" + std::to_string(idx);
   w.random_backend_options(r);
-  uint32_t const grace_us = static_cast<uint32_t>(r.pick({2000, 20000}));
+  // one scenario in three stamps with rdtsc (the library default) on every logger: the ordering gate has to hold for
+  // converted timestamps too. One clock source per scenario (two clocks cannot be ordered against each other), the long
+  // grace period (a quarter of it is granted as conversion error) and no resynchronisation of the backend's
+  // RdtscClock while the scenario runs (a resync may step converted time backwards by the drift it corrects).
+  bool const tsc = r.chance(1, 3);
+  uint32_t const grace_us = tsc ? 20000u : static_cast<uint32_t>(r.pick({2000, 20000}));
+  if (tsc)
+  {
+    w.tsc_mask = 0xffffffffu;
+    w.bo.rdtsc_resync_interval = std::chrono::hours{1};
+  }
   w.bo.log_timestamp_ordering_grace_period = std::chrono::microseconds{grace_us};
   uint64_t const grace_ns = grace_us * 1000ull;
   if (r.chance(1, 2))
@@ -522,6 +552,7 @@ inline bool order_F(Rng& r, uint64_t idx)
   stat_add("statements_issued", static_cast<long long>(all.size()));
   stat_add("order_inversions_observed_and_justified_by_lateness", static_cast<long long>(inv));
   stat_add("order_late_statements", static_cast<long long>(late));
+  if (w.tsc_mask) stat_add("order_scenarios_with_tsc_loggers");
   if (late || w.bo.transit_events_hard_limit <= 8) stat_sig("order_sigs", std::string{"F/"} + std::to_string(nt) + "/" + std::to_string(grace_us) + "/" + std::to_string(w.bo.transit_events_hard_limit) + "/" + (late ? "L" : "-") + (inv ? "I" : "-"));
   w.teardown_loggers();
   return ok;
